@@ -1,13 +1,13 @@
 package mon
 
 import (
-	"mime"
 	"bytes"
 	"encoding/json"
 	"encoding/xml"
 	"fmt"
 	"io"
 	"math/rand/v2"
+	"mime"
 	"mime/multipart"
 	"net/http"
 	"net/url"
@@ -486,7 +486,9 @@ func runC18(e *Env) {
 		if ct.Kind == "multipart" && ctype == "multipart/form-data" {
 			ctype = pick(r, []string{"multipart/form-data; boundary=xyz", "multipart/form-data", "multipart/form-data; boundary=", "multipart/form-data; boundary", "multipart/form-data; boundary=xyz;;"})
 		}
-		t.Describe(func() any { return map[string]any{"method": method, "content_type": ctype, "body": fmt.Sprintf("%q", body)} })
+		t.Describe(func() any {
+			return map[string]any{"method": method, "content_type": ctype, "body": fmt.Sprintf("%q", body)}
+		})
 		t.AutoSample()
 		t.NonTrivial(fmt.Sprintf("%s|%s|%q", method, ctype, body))
 		req := NewReqBody(method, "/p", ctype, body)
